@@ -76,6 +76,10 @@ class SymEnv:
 
     # conditions
     def eq(self, a, b, tol=None, abs_tol=None):
+        if not isinstance(a, SymReal) and not isinstance(b, SymReal) and abs_tol is None:
+            # two concrete numbers computed by the real code in IEEE arithmetic: compare with the replay tolerance
+            fa, fb = float(a), float(b)
+            return SymBool(z3.BoolVal(abs(fa - fb) <= (1e-9 if tol is None else tol) * max(1.0, abs(fa), abs(fb))))
         ea, eb = core.lift(a), core.lift(b)
         if abs_tol is not None and self.use_abs_tol:
             t = z3.RealVal(str(abs_tol))
